@@ -86,6 +86,13 @@ fn run(ctx: &mut Ctx) {
                     exec::EncOut::Panic(p) => ctx.violate(format!("C06:avp:encode-panic:{}", p.class()), format!("encoding {:?} panicked: {}", a, p.message), J::obj(vec![("value", J::s(desc.clone()))])),
                 }
             }
+            if let Some(twin) = glue::noncanonical_twin(&ca) {
+                ctx.rep.bucket("avp.noncanonical_twin");
+                match exec::encode_avp(&twin, Wk::Vec) {
+                    exec::EncOut::Ok(e) => compare(ctx, "avp-twin", &format!("attr{}", a.attr), &e.bytes, &want, &desc, |at| field_at_avp(at).to_string()),
+                    exec::EncOut::Panic(p) => ctx.violate(format!("C06:avp-twin:encode-panic:{}", p.class()), format!("encoding {:?} with its absent text given as Some(\"\") panicked: {}", a, p.message), J::obj(vec![("value", J::s(desc.clone()))])),
+                }
+            }
             ctx.rep.sample(|| J::obj(vec![("avp", J::s(desc.clone())), ("reference_hex", J::hex(&want[..want.len().min(64)]))]));
         }
         "control" => {
